@@ -325,7 +325,11 @@ fn syn_campaign(report: &mut Report, n: usize) {
     let scratch = Scratch::new("c14");
     let mut cfg = CaseCfg::default();
     cfg.gen.deprecation_percent = 30;
-    cfg.gen.recursion_percent = 30;
+    // recursive fragments next to sibling fields are flattened *and* boxed members: a shape of its own
+    // in the renderer, which `deny` must leave alone
+    cfg.gen.recursion_percent = 60;
+    cfg.gen.self_ref_percent = 60;
+    cfg.gen.mutual_rec_percent = 40;
     let mut stats = GenStats::default();
     let tapes = sample_tapes(report.seed, 0xC14E, n, 3072);
     let mut jobs = Vec::new();
